@@ -18,7 +18,9 @@ _PURE = {
     'zeros_like', 'hsplit', 'vsplit', 'split', 'squeeze', 'ravel', 'mod', 'dot', 'add', 'atleast_2d',
     'array_equal', 'count_nonzero', 'nonzero', 'where', 'arange', 'eye', 'shape', 'ndim', 'copy',
     'expand_dims', 'flip', 'roll', 'tile', 'repeat', 'union1d', 'setdiff1d', 'append', 'sum', 'any', 'all',
-    'logical_or', 'logical_and', 'logical_not', 'logical_xor',
+    'logical_or', 'logical_and', 'logical_not', 'logical_xor', 'min', 'max', 'amin', 'amax', 'argmin', 'argmax',
+    'unique', 'sort', 'argsort', 'cumsum', 'diff', 'isclose', 'allclose', 'abs', 'floor', 'ceil', 'round',
+    'minimum', 'maximum', 'prod', 'mean', 'empty', 'full', 'linspace', 'ix_', 'diag', 'outer', 'kron',
 }
 
 
